@@ -76,6 +76,7 @@ var natTokSpecs = []natTokSpec{
 	{func(w *world) util.Uint160 { return w.mgmt }, "destroy", 0}, {func(w *world) util.Uint160 { return w.roleMgmt }, "designateAsRole", 2},
 	{func(w *world) util.Uint160 { return w.oracle }, "request", 5}, {func(w *world) util.Uint160 { return w.oracle }, "finish", 0},
 	{func(w *world) util.Uint160 { return w.notary }, "lockDepositUntil", 2}, {func(w *world) util.Uint160 { return w.notary }, "withdraw", 2},
+	{func(w *world) util.Uint160 { return w.neo }, "setGasPerBlock", 1},
 }
 
 // flag sets of the method tokens for `run` of contracts 0 and 1
@@ -376,6 +377,21 @@ func (v *env) snap(post bool) *snapshot {
 		if d := v.bc.GetUtilityTokenBalance(v.w.notary, v.w.hashes[i]); d.Sign() != 0 {
 			add(notaryTab, i, int(d.Int64()))
 		}
+	}
+	// NEO: GAS per block — the latest record in storage against what the node answers from the cache
+	{
+		var latest []byte
+		v.bc.SeekStorage(v.neoID, []byte{29}, func(k, val []byte) bool { // prefixGASPerBlock + index (BE): ascending
+			latest = val
+			return true
+		})
+		inStorage := int(bigint.FromBytes(latest).Int64())
+		it := v.testInvoke(v.w.neo, "getGasPerBlock")
+		bi, _ := it.TryInteger()
+		if int(bi.Int64()) != inStorage {
+			s.odd = append(s.odd, fmt.Sprintf("gasPerBlock cache=%d storage=%d", bi.Int64(), inStorage))
+		}
+		add(gasPBTab, 0, inStorage)
 	}
 	// Notary: till of every deposit
 	for i := 0; i < numContracts; i++ {
